@@ -33,7 +33,7 @@ ASSUMPTIONS = [
 FLOOR = {'quick': 5000, 'thorough': 100000}
 SPACE = {'quick': 'all 10 400 five-class sequences (full path); all 170 sequences <= 4 classes with all member families (find, docs, member tables, overrides); generic-subscripted bases on <= 4 classes; all placements of <= 4 classes over 2 modules x both processing orders; all five-class sequences at mro.mro level',
          'thorough': 'quick + all 3 390 400 six-class sequences at mro.mro level; five-class sequences with the m_P member family; 3-module placements of 4-class sequences; supplementary sampled 7-9 class hierarchies'}
-CAP = {'quick': 240.0, 'thorough': 2400.0}
+CAP = {'quick': 900.0, 'thorough': 3600.0}
 JOB_TIMEOUT = 1500
 
 
